@@ -7,13 +7,24 @@ namespace DS.SortedView
 
 variable {α : Type}
 
+/-- `lt` is a strict weak order (C++ named requirement *Compare*) -/
+structure StrictWeak (lt : α → α → Bool) : Prop where
+  asymm : ∀ a b, lt a b = true → lt b a = false
+  negTrans : ∀ a b c, lt a b = false → lt b c = false → lt a c = false
+
+/-- non-decreasing w.r.t. `lt` -/
+def Sorted (lt : α → α → Bool) (l : List α) : Prop := l.Pairwise (fun a b => lt b a = false)
+
+/-- `std::merge` with `compare_pairs_by_first` and explicit fuel (structural recursion: evaluates in the kernel) -/
+def mergeF (lt : α → α → Bool) : Nat → List (α × Nat) → List (α × Nat) → List (α × Nat)
+  | _, [], r => r
+  | _, a :: l, [] => a :: l
+  | 0, a :: l, b :: r => a :: l ++ b :: r      -- unreachable with fuel = l.length + r.length
+  | f + 1, a :: l, b :: r =>
+    if lt b.1 a.1 then b :: mergeF lt f (a :: l) r else a :: mergeF lt f l (b :: r)
+
 /-- `std::merge` with `compare_pairs_by_first`: stable, takes from the second run only when strictly smaller -/
-def merge (lt : α → α → Bool) : List (α × Nat) → List (α × Nat) → List (α × Nat)
-  | [], r => r
-  | a :: l, [] => a :: l
-  | a :: l, b :: r =>
-    if lt b.1 a.1 then b :: merge lt (a :: l) r else a :: merge lt l (b :: r)
-termination_by l r => l.length + r.length
+def merge (lt : α → α → Bool) (l r : List (α × Nat)) : List (α × Nat) := mergeF lt (l.length + r.length) l r
 
 /-- `add(first, last, weight)`: the run `items` (already sorted by the caller) is merged into the view -/
 def add (lt : α → α → Bool) (view : List (α × Nat)) (items : List α) (w : Nat) : List (α × Nat) :=
@@ -33,33 +44,79 @@ structure View (α : Type) where
 
 def build (raw : List (α × Nat)) : View α := { ents := cumulate 0 raw, total := total raw }
 
+/-- scan of `get_rank`: `acc` = cumulative weight of the entry just before the bound.
+inclusive: `upper_bound` = first entry with `item < x`; exclusive: `lower_bound` = first entry with `¬ (x < item)`
+(the linear scan is the specification of the binary searches on a sorted view, `view_sorted`) -/
+def rankGo (lt : α → α → Bool) (item : α) (inclusive : Bool) : List (α × Nat) → Nat → Nat
+  | [], acc => acc
+  | (x, c) :: t, acc =>
+    if (if inclusive then lt item x else !(lt x item)) then acc else rankGo lt item inclusive t c
+
 /-- numerator of `get_rank`: cumulative weight of the last entry that is `≤ item` (inclusive) / `< item` (exclusive) -/
 def rankNum (lt : α → α → Bool) (v : View α) (item : α) (inclusive : Bool) : Nat :=
-  let rec go : List (α × Nat) → Nat → Nat
-    | [], acc => acc
-    | (x, c) :: t, acc =>
-      -- inclusive: upper_bound = first entry with item < x ; exclusive: lower_bound = first entry with ¬ (x < item)
-      if (if inclusive then lt item x else !(lt x item)) then acc else go t c
-  go v.ents 0
+  rankGo lt item inclusive v.ents 0
 
 def getRank (lt : α → α → Bool) (v : View α) (item : α) (inclusive : Bool) : Float :=
   (UInt64.ofNat (rankNum lt v item inclusive)).toFloat / (UInt64.ofNat v.total).toFloat
 
+/-- scan of `get_quantile` by cumulative weight.
+inclusive: `lower_bound` (first `c` with `¬ c < weight`); exclusive: `upper_bound` (first `c` with `weight < c`);
+past the end: the last entry -/
+def quantGo (weight : Nat) (inclusive : Bool) : List (α × Nat) → Option α → Option α
+  | [], last => last
+  | (x, c) :: t, _ =>
+    if (if inclusive then !(c < weight) else weight < c) then some x else quantGo weight inclusive t (some x)
+
 /-- index-free `get_quantile` for an already computed integer weight threshold -/
 def quantileAt (v : View α) (weight : Nat) (inclusive : Bool) : Option α :=
-  let rec go : List (α × Nat) → Option α → Option α
-    | [], last => last
-    | (x, c) :: t, _ =>
-      -- inclusive: lower_bound by cumulative weight (first c with ¬ c < weight); exclusive: upper_bound (first c with weight < c)
-      if (if inclusive then !(c < weight) else weight < c) then some x else go t (some x)
-  go v.ents none
+  quantGo weight inclusive v.ents none
 
-/-- the weight threshold as the code computes it in double arithmetic -/
+/-- the weight threshold as the code computes it in double arithmetic.
+`static_cast<uint64_t>` of a NaN (a NaN rank passes the callers' `rank < 0 || rank > 1` test) is undefined
+behaviour in C++; g++ on x86-64 yields 2^63, which is what is modelled (finding `nan-rank-answered`). -/
 def quantileWeight (total : Nat) (rank : Float) (inclusive : Bool) : Nat :=
   let t := (UInt64.ofNat total).toFloat
+  if (rank * t).isNaN then 2 ^ 63 else
   (if inclusive then Float.ceil (rank * t) else rank * t).toUInt64.toNat
 
 def getQuantile (v : View α) (rank : Float) (inclusive : Bool) : Option α :=
   quantileAt v (quantileWeight v.total rank inclusive) inclusive
+
+/-- `check_split_points`: no NaN (floating point items; `isNaN` is constant false otherwise) and strictly increasing -/
+def checkSplitPoints (lt : α → α → Bool) (isNaN : α → Bool) : List α → Bool
+  | [] => true
+  | [a] => !isNaN a
+  | a :: b :: t => !isNaN a && lt a b && checkSplitPoints lt isNaN (b :: t)
+
+/-- the arithmetic used for normalized ranks: executed with `Float` (as the code does), theorems with `Rat` -/
+structure RankOps (β : Type) where
+  ratio : Nat → Nat → β      -- static_cast<double>(a) / b
+  one : β
+  sub : β → β → β
+
+def floatOps : RankOps Float :=
+  { ratio := fun a b => (UInt64.ofNat a).toFloat / (UInt64.ofNat b).toFloat, one := 1.0, sub := fun a b => a - b }
+
+def ratOps : RankOps Rat :=
+  { ratio := fun a b => (a : Rat) / (b : Rat), one := 1, sub := fun a b => a - b }
+
+/-- `get_rank` over an arbitrary `RankOps`; 0 when the bound is `begin()` (`rankNum = 0`) -/
+def getRankG {β : Type} (ops : RankOps β) (lt : α → α → Bool) (v : View α) (item : α) (inclusive : Bool) : β :=
+  ops.ratio (rankNum lt v item inclusive) v.total
+
+/-- `get_CDF` after `check_split_points`: the ranks of the split points, then 1 -/
+def getCDF {β : Type} (ops : RankOps β) (lt : α → α → Bool) (v : View α) (sps : List α) (inclusive : Bool) : List β :=
+  sps.map (fun x => getRankG ops lt v x inclusive) ++ [ops.one]
+
+/-- successive differences `x_i - x_{i-1}` -/
+def diffs {β : Type} (ops : RankOps β) : β → List β → List β
+  | _, [] => []
+  | p, x :: t => ops.sub x p :: diffs ops x t
+
+/-- `get_PMF`: `buckets[i] -= buckets[i - 1]` from the top down -/
+def getPMF {β : Type} (ops : RankOps β) (lt : α → α → Bool) (v : View α) (sps : List α) (inclusive : Bool) : List β :=
+  match getCDF ops lt v sps inclusive with
+  | [] => []
+  | c :: t => c :: diffs ops c t
 
 end DS.SortedView
